@@ -283,8 +283,7 @@ example : (⟨none, none, .custom 3, .none⟩ : Style).mode = none := by decide
 theorem builtin_spacing_zero : ∀ r ∈ fontTable, FontDecoOK r := fontTable_deco_ok
 
 -- [V] the atlas bitmap content itself (which bits are on in which cell of the 292 raw files) is a parameter of the theorems; the correspondence feeds the real bits read with `font.image.pixel()`: carried by correspondence + oracle only
--- [V] `Text::draw` of a single-line, left-aligned text equals `draw_string` (multi-line / alignment is C15): carried by correspondence + oracle only
--- [V] ranges of a mapping string that cross the surrogate gap (none in the 14 built-in strings; `range_is_interval` excludes them): carried by correspondence + oracle only
+-- (closed) ranges of a mapping string that cross the surrogate gap (none in the 14 built-in strings; `range_is_interval` excludes them) are characterised in Props/C14/Surrogate.lean (`range_crossing_surrogate_gap`, `range_crossing_position`, `range_members`, `range_no_duplicates`: any range between two `char`s); tied by the `font.indexs` custom-string ops (a `\0 U+D7FE U+E001` range among them)
 -- [V] `as u32` / `as i32` truncation of glyph indices and cell coordinates beyond 2^31 and i32 overflow of the running x position (theorems assume `TextInRange`): carried by correspondence + oracle only
 
 end EG.C14
